@@ -35,7 +35,7 @@ def _cm_cases(draw, max_size=10):
     f32 = draw(st.sampled_from([None, None, None, "float32", "float16"])) if s["mode"] in ("grid", "dyadic") else None
     return dict(s=s, thr=thr, sorted=draw(st.booleans()),
                 via=draw(st.sampled_from(["ctor", "ctor", "labels", "labels", "lists", "swap-twice"])), dtype=f32,
-                label_kind=draw(st.sampled_from(["int", "float-ids", "float-tiny", "str", "bool"])),
+                label_kind=draw(st.sampled_from(["int", "float-ids", "float-tiny", "str", "bool", "str-none", "float-nan"])),
                 flag_kind=draw(st.sampled_from(["py", "py", "np", "int"])),
                 thr_as=draw(st.sampled_from(["array", "array", "list", "F", "f32", "f16", "int"])))
 
@@ -52,8 +52,11 @@ def _build(case, sc, ec):
         return Scores(list(s["pos"]), list(s["neg"]), **kw)
     if case.get("via") == "labels":
         pl_, nl_ = {"int": (1, 0), "float-ids": (20230001.0, 20230002.0), "float-tiny": (0.0, 1e-9),
-                    "str": ("genuine", "impostor"), "bool": (True, False)}[case.get("label_kind", "int")]
-        labels = np.asarray([pl_] * len(pos) + [nl_] * len(neg)) if len(pos) + len(neg) else np.zeros(0, dtype=int)
+                    "str": ("genuine", "impostor"), "bool": (True, False),
+                    # un-annotated rows: every label other than pos_label is a negative label
+                    "str-none": ("genuine", None), "float-nan": (1.0, float("nan"))}[case.get("label_kind", "int")]
+        labels = np.asarray([pl_] * len(pos) + [nl_] * len(neg),
+                            dtype=object if nl_ is None else None) if len(pos) + len(neg) else np.zeros(0, dtype=int)
         allv = np.concatenate([pos, neg])
         perm = np.argsort(np.sin(np.arange(len(allv)) * 12.9898), kind="stable")
         la, sa = labels[perm], allv[perm]
@@ -143,7 +146,8 @@ def check_cm(case):
 def _pw_cases(draw):
     s = draw(gen.score_sets(max_size=8, mag=1e300, easy=False))
     thr = draw(gen.shaped_thresholds(s["pos"] + s["neg"], shapes=gen.SHAPES_NONEMPTY, mag=1e300))
-    lab = draw(st.sampled_from(["int", "str", "bool", "boolF", "bool0", "int52", "float", "float-ids", "float-tiny"]))
+    lab = draw(st.sampled_from(["int", "str", "bool", "boolF", "bool0", "int52", "float", "float-ids", "float-tiny",
+                                "str-none", "float-nan"]))
     return dict(s=s, thr=thr, lab=lab, order=draw(st.integers(0, 10**6)),
                 layout=draw(st.sampled_from(["1d", "1d", "2d-C", "2d-F-scores", "2d-F-labels", "2d-T-scores", "2d-F-both"])))
 
@@ -164,11 +168,13 @@ def check_pointwise(case):
                   "int52": (5, 2, dict(pos_label=5)), "float": (0.0, 1.0, dict(pos_label=0.0)),
                   # labels that are different numbers, however close (ids read as floats; 0 vs 1e-9)
                   "float-ids": (20230001.0, 20230002.0, dict(pos_label=20230001.0)),
-                  "float-tiny": (0.0, 1e-9, dict(pos_label=0))}[case["lab"]]
+                  "float-tiny": (0.0, 1e-9, dict(pos_label=0)),
+                  "str-none": ("y", None, dict(pos_label="y")), "float-nan": (1.0, float("nan"), dict(pos_label=1.0))}[case["lab"]]
     labels = [pl] * n + [nl] * m
     scores = list(pos) + list(neg)
     order = np.random.RandomState(case["order"]).permutation(n + m)
-    labels_a = np.asarray([labels[i] for i in order]) if n + m else np.asarray([], dtype=int)
+    labels_a = (np.asarray([labels[i] for i in order], dtype=object if nl is None else None)
+                if n + m else np.asarray([], dtype=int))
     scores_a = _arr([scores[i] for i in order], s["mode"])
     # labels and scores as matrices (one row per session, say) whose memory layouts may differ:
     # element [i, j] of the labels belongs to element [i, j] of the scores
@@ -268,6 +274,47 @@ def check_big(case):
     return dict(nontrivial=bool(pos) and bool(neg) and near, labels=[f"dtype:{case['dtype']}"])
 
 
+# ------------------------------------------------------------------ clause: pointwise_large
+def _pw_large_cases(tier):
+    """Calls with more than 2^24 (score, threshold) pairs, threshold counts next to 2^24 // n_scores."""
+    combos = [(5000, 3356), (4096, 4097), (8192, 2049)] if tier == "quick" else \
+        [(5000, 3356), (4096, 4097), (8192, 2049), (5000, 3355), (4096, 4096), (3000, 5594), (3000, 5593), (16384, 1025)]
+    for k, (x, y) in enumerate(combos):
+        yield dict(x=x, y=y, cfg=CONFIGS[k % 4])
+
+
+def check_pw_large(case):
+    from score_analysis import pointwise_cm
+
+    x, y = case["x"], case["y"]
+    sc, ec = case["cfg"]
+    scores = ((np.arange(x) * 7919) % 1009) / 16.0          # ties, arbitrary order
+    labels = ((np.arange(x) * 31) % 7 < 3).astype(int)
+    thr = ((np.arange(y) * 104729) % 1013) / 16.0 - 0.03125  # some equal to scores, some between
+    pw = pointwise_cm(labels, scores, thr, score_class=sc, equal_class=ec)
+    require(pw.shape == (x, y, 2, 2), "pw:shape", f"{pw.shape}")
+    one = pw.sum(axis=(-1, -2))
+    bad = np.argwhere(one != 1)
+    require(bad.size == 0, "pw:one-cell",
+            lambda: f"{x} scores x {y} thresholds, config={sc}/{ec}: sample {int(bad[0][0])} is in {int(one[tuple(bad[0])])} "
+                    f"cells at threshold #{int(bad[0][1])} ({len(bad)} such pairs)")
+    # counting reference: predicted positive by the documented rule
+    s_ = scores[:, None]
+    t_ = thr[None, :]
+    if sc == "pos":
+        pp = (s_ >= t_) if ec == "pos" else (s_ > t_)
+    else:
+        pp = (s_ <= t_) if ec == "pos" else (s_ < t_)
+    pos = (labels == 1)[:, None]
+    ref = np.stack([np.stack([(pos & pp).sum(0), (pos & ~pp).sum(0)], -1), np.stack([(~pos & pp).sum(0), (~pos & ~pp).sum(0)], -1)], -2)
+    got = pw.sum(axis=0)
+    badc = np.argwhere((got != ref).any(axis=(-1, -2)))
+    require(badc.size == 0, "pw:sum",
+            lambda: f"{x} scores x {y} thresholds, config={sc}/{ec}: at threshold #{int(badc[0][0])} the membership array sums to "
+                    f"{got[badc[0][0]].tolist()}, counting gives {ref[badc[0][0]].tolist()}")
+    return dict(nontrivial=True, labels=[f"pairs:{x * y}"])
+
+
 # ------------------------------------------------------------------ clause: enum_small
 _VALS = [0.0, 1.0, 2.0]
 
@@ -327,6 +374,8 @@ PROP = Prop(
                min_nontrivial=30, doc="pointwise_cm membership and its sum over samples"),
         Clause("big_integers", check_big, strategy=_big_cases(), quick=150, thorough=3000, quick_shards=2,
                min_nontrivial=50, doc="int64/uint64 scores beyond 2^53 with integer thresholds"),
+        Clause("pointwise_large", check_pw_large, kind="enum", cases=_pw_large_cases, quick_shards=3, shards=8,
+               min_nontrivial=3, doc="pointwise_cm calls with 1.68e7 (score, threshold) pairs"),
         Clause("enum_small", check_enum, kind="enum", cases=_enum_cases, shards=16,
                quick_shards=2, min_nontrivial=10,
                doc="all order types of small score sets (exhaustive)"),
